@@ -8,7 +8,7 @@ for l in open('/verif/properties.jsonl'):
     p = json.loads(l)
     if p['id'] == pid:
         rec = {k: p[k] for k in ('id', 'title', 'statement', 'quantifier', 'why_tests_cant', 'anchors')}
-print(f"""You are working in a scratch git worktree of the Go library ossrs/go-oryx-lib at {wt} (offline sandbox, nothing can be downloaded). Work ONLY inside that directory, do everything yourself (do NOT start sub-agents or background tasks): do not read, list or use anything under /verif, /repo or /root — your result must be independent of any existing verification machinery. Every shell call needs: export GOFLAGS=-mod=mod GOPROXY=off GOSUMDB=off GOTOOLCHAIN=local  (go is 1.23; the module's go.mod says `go 1.4.0`, so code is compiled with -lang=go1.4: no 0o literals, no generics, unsigned shift counts).
+print(f"""You are working in a scratch git worktree of the Go library ossrs/go-oryx-lib at {wt} (offline sandbox, nothing can be downloaded). Work ONLY inside that directory, do everything yourself (do NOT start sub-agents or background tasks; never use `git stash`, `git commit`, `git reset` or `git worktree` — the repository metadata is shared): do not read, list or use anything under /verif, /repo or /root — your result must be independent of any existing verification machinery. Every shell call needs: export GOFLAGS=-mod=mod GOPROXY=off GOSUMDB=off GOTOOLCHAIN=local  (go is 1.23; the module's go.mod says `go 1.4.0`, so code is compiled with -lang=go1.4: no 0o literals, no generics, unsigned shift counts).
 
 Here is a semantic property this library is supposed to satisfy (the file/line anchors say where the mechanism lives):
 
